@@ -108,13 +108,6 @@ func (e *emitter) caseTerm(cs *Case, steps []*stepRec, obs *Obs) string {
 		subs[i] = fmt.Sprintf("(%s, %s)", e.paths(s.Qs), vh.Bool(s.UO))
 	}
 	b.WriteString(vh.List(subs) + " ")
-	var wops []string
-	for _, o := range cs.Ops {
-		if o.W >= 0 {
-			wops = append(wops, fmt.Sprintf("(%s, %s)", natT(o.W), e.wopT(o, nil, nil)))
-		}
-	}
-	b.WriteString(vh.List(wops) + " ")
 	bad := obs.Bad != ""
 	var st []string
 	nread := make([]int, len(cs.Subs))
@@ -125,6 +118,8 @@ func (e *emitter) caseTerm(cs *Case, steps []*stepRec, obs *Obs) string {
 			t = fmt.Sprintf("(CL (LWrite %s (%s)), OW %s)", natT(s.w), e.wopT(s.op, s.sub, s.order), wresT(s.res))
 		case "feed":
 			t = fmt.Sprintf("(CL (LFeed %s), ONone)", natT(s.w))
+		case "unlock":
+			t = fmt.Sprintf("(CL (LUnlock %s), ONone)", natT(s.w))
 		case "regall":
 			t = fmt.Sprintf("(CRegAll %s, ONone)", natT(s.s))
 		case "walk":
